@@ -70,10 +70,20 @@ struct G {
   bool stacks_mapped;
   int rr_last;
   bool ending;
+  uint64_t frozen_until[MAXT + 1];   // search mode only: global step before which the chooser avoids this task (a pre-empted task stays away for long)
 };
 static G g;
 int g_host_depth_export = 0;
 
+// Writable static data of the library objects (sections renamed by the Makefile): snapshot at the first run, restored before every run.
+extern "C" { extern char __start_nstd_bss[] __attribute__((weak)); extern char __stop_nstd_bss[] __attribute__((weak)); extern char __start_nstd_data[] __attribute__((weak)); extern char __stop_nstd_data[] __attribute__((weak)); }
+static void restoreLibraryStatics() {
+  static char* snapBss = 0; static char* snapData = 0; static bool taken = false;
+  size_t nb = (__start_nstd_bss && __stop_nstd_bss) ? (size_t)(__stop_nstd_bss - __start_nstd_bss) : 0, nd = (__start_nstd_data && __stop_nstd_data) ? (size_t)(__stop_nstd_data - __start_nstd_data) : 0;
+  if (!taken) { taken = true; if (nb) { snapBss = (char*)malloc(nb); memcpy(snapBss, __start_nstd_bss, nb); } if (nd) { snapData = (char*)malloc(nd); memcpy(snapData, __start_nstd_data, nd); } return; }
+  if (nb) memcpy(__start_nstd_bss, snapBss, nb);
+  if (nd) memcpy(__start_nstd_data, snapData, nd);
+}
 static std::vector<void(*)()>& resetHooks() { static std::vector<void(*)()> v; return v; }
 void addResetHook(void (*fn)()) { resetHooks().push_back(fn); }
 static std::vector<void(*)()>& endHooks() { static std::vector<void(*)()> v; return v; }
@@ -197,7 +207,10 @@ void stubError(const char* fmt, ...) {
 }
 
 // ------------------------------------------------------------------ choose
-int choose(int kind, int n) {
+static int chooseMasked(int kind, int n, const unsigned char* allowed);
+int choose(int kind, int n) { return chooseMasked(kind, n, 0); }
+// allowed (search mode only; may be null): restricts the draw to the marked indices; the recorded value is an ordinary index, so replay needs no mask
+static int chooseMasked(int kind, int n, const unsigned char* allowed) {
   if (!g.in_run) return 0;
   Task& t = g.t[g.cur];
   uint32_t nth = t.cnt[kind]++;
@@ -210,7 +223,7 @@ int choose(int kind, int n) {
   } else {
     double r = g.cfg.rate[kind];
     if (r <= 0) return 0;
-    if (r >= 1.0) v = (int)(drnd() % (uint64_t)n);
+    if (r >= 1.0) { if (allowed) { int idx[MAXT + 1], m = 0; for (int i = 0; i < n && i <= MAXT; ++i) if (allowed[i]) idx[m++] = i; v = m ? idx[drnd() % (uint64_t)m] : (int)(drnd() % (uint64_t)n); } else v = (int)(drnd() % (uint64_t)n); }
     else if ((drnd() >> 11) * (1.0 / 9007199254740992.0) < r) v = 1 + (int)(drnd() % (uint64_t)(n - 1));
   }
   if (v) {
@@ -310,7 +323,8 @@ static int pickNext() {
     for (int i = 1; i <= g.ntasks; ++i) if (g.t[i].state == 1) ids[n++] = i;
     if (n) {
       if (g.tail) { for (int k = 0; k < n; ++k) if (ids[k] > g.rr_last) { g.rr_last = ids[k]; return ids[k]; } g.rr_last = ids[0]; return ids[0]; }
-      int k = choose(K_BLOCKNEXT, n);
+      unsigned char ok[MAXT + 1]; int nok = 0; for (int k = 0; k < n; ++k) { ok[k] = g.frozen_until[ids[k]] <= g.steps; nok += ok[k]; }
+      int k = chooseMasked(K_BLOCKNEXT, n, (!g.spec->replay && nok && nok < n) ? ok : 0);
       return ids[k];
     }
     int64_t dl = -1;
@@ -357,7 +371,12 @@ static void slowYield(bool pre) {
       int next;
       if (!recorded) { next = ids[0]; for (int k = 0; k < n; ++k) if (ids[k] > g.cur) { next = ids[k]; break; } }   // round robin
       else if (g.spec->replay) { next = ids[0]; for (int k = 0; k < n; ++k) if (ids[k] == target) next = target; }
-      else next = ids[drnd() % (uint64_t)n];
+      else {
+        int cand[MAXT], m = 0; for (int k = 0; k < n; ++k) if (g.frozen_until[ids[k]] <= g.steps) cand[m++] = ids[k];
+        next = m ? cand[drnd() % (uint64_t)m] : ids[drnd() % (uint64_t)n];
+        /* long-lived suspension: with the configured probability the pre-empted task stays away for 2^5..2^12 steps, so that other tasks can complete whole operations meanwhile */
+        if (g.cfg.freeze_pct > 0 && (int)(drnd() % 100) < g.cfg.freeze_pct) g.frozen_until[g.cur] = g.steps + (32ULL << (drnd() % 8)) + drnd() % 32;
+      }
       if (recorded) {
         g_host_depth_export++;
         g.res->preemptions.push_back(Preemption{g.cur, t.yields, next});
@@ -397,7 +416,7 @@ void forceYield() {
   if (!n) return;
   int next;
   if (g.tail) { next = ids[0]; for (int k = 0; k < n; ++k) if (ids[k] > g.cur) { next = ids[k]; break; } }
-  else next = ids[choose(K_BLOCKNEXT, n)];
+  else { unsigned char ok[MAXT + 1]; int nok = 0; for (int k = 0; k < n; ++k) { ok[k] = g.frozen_until[ids[k]] <= g.steps; nok += ok[k]; } next = ids[chooseMasked(K_BLOCKNEXT, n, (!g.spec->replay && nok && nok < n) ? ok : 0)]; }
   switchTo(next);
 }
 
@@ -451,7 +470,7 @@ Result run(const RunSpec& spec, const Config& cfg, const Hooks& hooks) {
   mapStacks();
   for (int i = 0; i <= MAXT; ++i) { std::vector<int>* j = g.t[i].joiners; memset(&g.t[i], 0, sizeof(Task)); g.t[i].joiners = j; if (j) j->clear(); }
   g.ntasks = 0; g.steps = 0; g.switches = 0; g.time_base = 1000000000LL; g.real_off = 1700000000LL * 1000000000LL + cfg.real_phase_ns;
-  g.dilation_closed = 0; g.tail = false; g.tail_requested = false; g.tail_limit = 0; g.budget_exhausted = false; g.quiesced = false; g.ending = false; g.rr_last = 0;
+  g.dilation_closed = 0; g.tail = false; g.tail_requested = false; g.tail_limit = 0; g.budget_exhausted = false; g.quiesced = false; g.ending = false; g.rr_last = 0; memset(g.frozen_until, 0, sizeof g.frozen_until);
   seedx(g.s, spec.seed ^ 0xD1CEULL); seedx(g.p, spec.seed ^ 0x9A11ULL);
   g.spec = &spec; g.cfg = cfg; g.hooks = hooks;
   { static const char* lk = getenv("SIM_LOGKEEP"); if (lk) g.cfg.log_keep = (size_t)atol(lk); } g.res = &res; g.hash = 0xcbf29ce484222325ULL;
@@ -465,6 +484,7 @@ Result run(const RunSpec& spec, const Config& cfg, const Hooks& hooks) {
     for (int i = 1; i <= MAXT; ++i) { std::sort(rpre[i].begin(), rpre[i].end(), [](const Preemption& a, const Preemption& b) { return a.yield < b.yield; }); g.rpre[i] = &rpre[i]; }
   }
   g_host_depth_export = 0;
+  restoreLibraryStatics();
   for (auto fn : resetHooks()) fn();
   traceSwap();
   g.in_run = true; g.cur = 0;
